@@ -309,6 +309,12 @@ MUTANTS = [
     ("c15-fixed-point-pair-slice", ["C15", "C04"], "SH5", H,
      "        return PointPair(fixpoint_data[..., :2, :])",
      "        return PointPair(fixpoint_data[..., :2])"),
+    ("c04-intersect-geodesic-unfix-params", ["C04"], "SH5", H,
+     "        t1 = np.expand_dims(t1, axis=-1)\n        t2 = np.expand_dims(t2, axis=-1)\n",
+     ""),
+    ("c04-intersect-geodesic-unfix-apply", ["C04"], "SH5", H,
+     "        intersections = PointPair(Point(klein_pts, model=Model.KLEIN))\n        return Point(coord_change @ intersections)\n",
+     "        return coord_change @ Point(klein_pts, model=Model.KLEIN)\n"),
     # ---- C15
     ("c15-drop-reflection-guard", ["C15"], "R1", H,
      "        if (np.abs(eval_differences) > ERROR_THRESHOLD).any():\n            raise GeometryError(\"Not a reflection matrix\")\n",
